@@ -25,6 +25,7 @@ class Gen:
         self.spicy = spicy
         self.p_opt = p_opt
         self.max_list = max_list
+        self.p_posexp = 0.0      # probability of a Decimal with positive exponent (unscaled decimals)
         self.by_name = {c["name"]: c for c in schema["classes"]}
         self.by_idx = {c["idx"]: c for c in schema["classes"]}
         import ofxtools.models as M
@@ -72,7 +73,7 @@ class Gen:
     def dec(self, qexp):
         rng = self.rng
         if qexp is None:
-            e = rng.choice([0, -1, -2, -2, -4, -6])
+            e = rng.choice([0, -1, -2, -2, -4, -6]) if rng.random() > self.p_posexp else rng.choice([1, 2, 5])
             c = rng.choice([0, 1, 5, 99, 12345, rng.randint(0, 10 ** 9)])
         else:
             e = qexp
